@@ -403,6 +403,10 @@ def run_check(prop, tier, repo, jobs, seed):
           f"xh={xh_conf}/{len(xh_results)} confirmed; sweep={json.dumps(sweep)[:200] if sweep else None}; wall={evidence['wall_s']}s")
     if n_viol:
         return 1
+    if spurious:
+        # a counterexample that does not replay is an artefact of the engine, a stub or an
+        # oracle - and it may be standing in front of a real violation: never a pass
+        harness_errors.append(f"{spurious} counterexample(s) did not replay on the plain library (see SPURIOUS lines)")
     if harness_errors:
         for e in harness_errors[:10]:
             print("HARNESS-ERROR", e)
